@@ -20,9 +20,9 @@ theorem range_result_len_str (lim : Limits) (r1 r2 : Bool) (size n1 n2 : Int) (o
   unfold opRange at h
   dsimp only at h
   -- the bounds hold for EVERY int64 value of the "counted from the end" subtractions (regenerated `rev_*`)
-  have htR : InI64 (rev_range_str_to size n2) := by unfold rev_range_str_to; exact trunc64_inI64 _
+  have htR : InI64 (rev_range_str_to size n2) := by unfold rev_range_str_to; exact rangeFromEnd_inI64 _ _
   generalize rev_range_str_to size n2 = tR at h htR
-  have hfR : InI64 (rev_range_str_from size n1) := by unfold rev_range_str_from; exact trunc64_inI64 _
+  have hfR : InI64 (rev_range_str_from size n1) := by unfold rev_range_str_from; exact rangeFromEnd_inI64 _ _
   generalize rev_range_str_from size n1 = fR at h hfR
   unfold InI64 at *
   simp only [guard_range_str_to_neg, guard_range_str_from_neg, guard_range_str_from_clamp, guard_range_str_empty,
@@ -45,9 +45,9 @@ theorem range_result_len_buf (lim : Limits) (r1 r2 : Bool) (size n1 n2 : Int) (o
   simp only at hk
   unfold opRange at h
   dsimp only at h
-  have htR : InI64 (rev_range_buf_to size n2) := by unfold rev_range_buf_to; exact trunc64_inI64 _
+  have htR : InI64 (rev_range_buf_to size n2) := by unfold rev_range_buf_to; exact rangeFromEnd_inI64 _ _
   generalize rev_range_buf_to size n2 = tR at h htR
-  have hfR : InI64 (rev_range_buf_from size n1) := by unfold rev_range_buf_from; exact trunc64_inI64 _
+  have hfR : InI64 (rev_range_buf_from size n1) := by unfold rev_range_buf_from; exact rangeFromEnd_inI64 _ _
   generalize rev_range_buf_from size n1 = fR at h hfR
   unfold InI64 at *
   simp only [guard_range_buf_to_neg, guard_range_buf_from_neg, guard_range_buf_from_neg2, guard_range_buf_empty,
@@ -128,7 +128,7 @@ theorem erange_result_len_str (lim : Limits) (r1 : Bool) (size n1 : Int) (out : 
   simp only at hk
   unfold opErange at h
   dsimp only at h
-  have hfR : InI64 (rev_erange_str_from size n1) := by unfold rev_erange_str_from; exact trunc64_inI64 _
+  have hfR : InI64 (rev_erange_str_from size n1) := by unfold rev_erange_str_from; exact rangeFromEnd_inI64 _ _
   generalize rev_erange_str_from size n1 = fR at h hfR
   unfold InI64 at *
   simp only [guard_erange_str_from_neg, guard_erange_str_from_neg2, guard_erange_str_empty, inS64, trunc64] at h
@@ -150,7 +150,7 @@ theorem erange_result_len_buf (lim : Limits) (r1 : Bool) (size n1 : Int) (out : 
   simp only at hk
   unfold opErange at h
   dsimp only at h
-  have hfR : InI64 (rev_erange_buf_from size n1) := by unfold rev_erange_buf_from; exact trunc64_inI64 _
+  have hfR : InI64 (rev_erange_buf_from size n1) := by unfold rev_erange_buf_from; exact rangeFromEnd_inI64 _ _
   generalize rev_erange_buf_from size n1 = fR at h hfR
   unfold InI64 at *
   simp only [guard_erange_buf_from_neg, guard_erange_buf_from_neg2, guard_erange_buf_from_hi, inS64, trunc64] at h
